@@ -5,6 +5,8 @@ package harness
 import (
 	"fmt"
 	"runtime/debug"
+	"sync"
+	"sync/atomic"
 	"time"
 
 	"github.com/cbehopkins/gkvlite"
@@ -31,8 +33,19 @@ type SchedChooser interface {
 
 var plainChooser SchedChooser
 
+var (
+	plainMu     sync.Mutex
+	plainPanics []string
+	plainTick   int64
+)
+
+// RunExec on the pristine build runs main directly: goroutines are real and
+// free-running (this is the validation pass, not the exploration).
 func RunExec(ch SchedChooser, preemptive bool, stepLimit int64, main func()) (res ExecResult) {
 	plainChooser = ch
+	plainMu.Lock()
+	plainPanics = nil
+	plainMu.Unlock()
 	defer func() {
 		plainChooser = nil
 		if r := recover(); r != nil {
@@ -40,6 +53,12 @@ func RunExec(ch SchedChooser, preemptive bool, stepLimit int64, main func()) (re
 			res.Msg = fmt.Sprint(r)
 			res.Stack = string(debug.Stack())
 		}
+		plainMu.Lock()
+		if res.Verdict == "" && len(plainPanics) > 0 {
+			res.Verdict = "PANIC"
+			res.Msg = plainPanics[0]
+		}
+		plainMu.Unlock()
 	}()
 	main()
 	return
@@ -51,14 +70,29 @@ func Choose(n int, class int) int {
 	}
 	return plainChooser.Choose(n, class)
 }
-func YieldIO()                                          {}
-func YieldCallback()                                    {}
-func BeginOp(label string)                              {}
-func Go(f func())                                       { go f() }
-func Tick() int64                                       { return 0 }
+func YieldIO()             {}
+func YieldCallback()       {}
+func BeginOp(label string) {}
+func Go(f func()) {
+	go func() {
+		defer func() {
+			if r := recover(); r != nil {
+				plainMu.Lock()
+				plainPanics = append(plainPanics, fmt.Sprint(r)+" "+string(debug.Stack()))
+				plainMu.Unlock()
+			}
+		}()
+		f()
+	}()
+}
+func Tick() int64                                       { return atomic.AddInt64(&plainTick, 1) }
 func ThreadID() int                                     { return 0 }
 func SetEventHook(h func(kind string, obj interface{})) {}
-func BlockUntil(cond func() bool)                       {}
+func BlockUntil(cond func() bool) {
+	for i := 0; !cond() && i < 5000000; i++ {
+		time.Sleep(20 * time.Microsecond)
+	}
+}
 
 type WalkNode struct {
 	ID                                uintptr
